@@ -25,7 +25,10 @@ from harness.impl import c20_runner as R
 MODULE = "CddVerif.Properties.C20"
 THEOREMS = [
     "C20.dry_run_pure", "C20.dry_run_fs_unchanged", "C20.dry_run_no_target",
-    "C20.gated_blacklist", "C20.gated_whitelist", "C20.gated_packages",
+    "C20.confined_partial", "C20.source_never_target",
+    "C20.confined_fails_init_above_output", "C20.confined_fails_source_written", "C20.confined_fails_root_escape",
+    "C20.confined_full_false",
+    "C20.gated_blacklist", "C20.gated_whitelist", "C20.gated_packages", "C20.modPath_undotted",
 ]
 MODEL_ERRS = {"AssertionError", "ModuleNotFoundError", "TypeError", "FileNotFoundError", "FileExistsError", "AttributeError", "NotADirectoryError"}
 
@@ -361,8 +364,22 @@ def evaluate(chk: core.Check, scenarios: list, label: str):
         cfg = st["cfg"]
         why = compare(st, m)
         key = json.dumps([sc["tree"]["files"], cfg, st["dry"], sc["pre"] if k == 0 else "after-%d" % k], sort_keys=True)
-        n_eff = len([e for e in m.get("trace", [])])
-        chk.count(key, n_eff > 2)
+        # non-trivial = inside the domain of the theorem that speaks about this run, and the run does something:
+        # dry run: at least one item reaches emit_file_on_hierarchy; real run: in `Exmod.inDomain` with at least one item
+        nontrivial = m.get("items", 0) > 0 and (st["dry"] or bool(m.get("in_domain")))
+        chk.count(key, nontrivial)
+        if not st["dry"]:
+            dd = cov.setdefault("confined_partial_domain", {"in": 0, "out:output-dir-is-module": 0, "out:item-not-ok": 0, "out:other": 0})
+            if m.get("in_domain"):
+                dd["in"] += 1
+                if not m.get("all_under_out"):
+                    chk.oblige("model instance of C20.confined_partial", "theorem-instance", False, "in_domain but an effect outside out: %s" % key[:300])
+            elif m.get("out_is_module"):
+                dd["out:output-dir-is-module"] += 1
+            elif m.get("items_not_ok"):
+                dd["out:item-not-ok"] += 1
+            else:
+                dd["out:other"] += 1
         for name, val in (("emit", "+".join(cfg["emit"])), ("mode", "dry" if st["dry"] else "real"),
                           ("prestate", (sc["pre"]["kind"] if k == 0 else ("after-real" if not sc["runs"][k - 1]["dry"] else "after-dry"))),
                           ("recursive", str(cfg["recursive"])), ("levels", str(sc["tree"]["levels"])),
@@ -414,7 +431,7 @@ def run(chk: core.Check) -> int:
         else:
             raise core.HarnessError("Lean driver not built")
         rng = chk.rng
-        n = 260 if chk.quick else 4000
+        n = 650 if chk.quick else 5000
         scenarios = [gen_scenario(rng, i) for i in range(n)]
         # directed stream: the regions of the known findings and the statement's corners, every run
         directed = []
@@ -451,7 +468,7 @@ def run(chk: core.Check) -> int:
             if p.is_dir() and time.time() - p.stat().st_mtime > 3600:
                 shutil.rmtree(p, ignore_errors=True)
     return chk.finish("package trees 1-3 levels (modules with classes/functions, re-exports through __init__/__all__, aliases, nested and relative imports, defs in __init__) x emit kind(s) x recursive x black/whitelist subsets (FQNs, relative names, both lists) x dry/real x output absent/empty/hand-written __init__.py/earlier real run; "
-                      "non-trivial = the model's trace has more than two effects; compared: ordered effect list, printed lines, exception class, final files/dirs; oracle: before/after snapshot (paths, sizes, sha1, mtime_ns)")
+                      "non-trivial = the run reaches emit_file_on_hierarchy and (dry run, or real run inside Exmod.inDomain = the domain of confined_partial, evaluated by the driver); compared: ordered effect list, printed lines, exception class, final files/dirs; oracle: before/after snapshot (paths, sizes, sha1, mtime_ns)")
 
 
 def replay(path: str) -> int:
@@ -470,6 +487,11 @@ def replay(path: str) -> int:
     st = res["steps"][k]
     oracle(chk, sc, k, st)
     print("replay: step %d err=%s created=%s changed=%s" % (k, st["err"], st["created"][:6], st["changed"][:6]))
+    if core.DRIVER.exists():
+        why = compare(st, core.model_batch([st["req"]])[0])
+        print("replay: model vs code: %s" % (why or "agree"))
+        if why and why != "outside-domain" and d.get("kind") == "correspondence":
+            return 1
     for v in chk.violations:
         print("  FAILS:", v["what"])
     for kf, v in chk.known_seen.items():
